@@ -62,7 +62,7 @@ def target_unchanged(label, a, old):
 
 class _Ufunc(Contract):
     name = "unyt.array.unyt_array.__array_ufunc__"
-    properties = ("C01", "C04", "C08", "C16", "C17", "C18")
+    properties = ("C01", "C04", "C08", "C09", "C16", "C17", "C18")
     ufunc = None
     method = "__call__"
     config = ("q", "q")
@@ -70,6 +70,8 @@ class _Ufunc(Contract):
     may_raise = ()
     max_paths = 3000
     callsite_disabled = True
+    need_str = True                  # the proof uses that str(unit) is not empty
+    also = ()                        # further properties whose proofs rest on this contract's value law
     out = None                       # None | "o" (a separate unyt array) | "i0" / "i1" (aliases an operand)
 
     # ---------------------------------------------------------------- operands
@@ -87,12 +89,19 @@ class _Ufunc(Contract):
         raise ValueError(kind)
 
     def formals(self, it):
-        ops = [self.make_operand(it, k, "i%d" % n) for n, k in enumerate(self.config)]
+        ops = []
+        for n, k in enumerate(self.config):
+            # "e": the very object passed as the first operand (np.multiply(x, x))
+            ops.append(ops[0] if k == "e" else self.make_operand(it, k, "i%d" % n))
         self_ = next(o for o in ops if N.is_unyt_array(o))
         f = {"self": self_, "ufunc": ExternalRef("numpy." + self.ufunc), "method": self.method,
              "inputs": tuple(ops), "target": None}
         if self.out == "o":
             f["target"] = N.make_unyt_array(it, "out")
+        elif self.out in ("v0", "v1"):
+            # another unyt object (array or quantity) viewing the memory of operand n
+            cname = "unyt_quantity" if it.branch(it.fresh_bool("out_is_quantity")) else "unyt_array"
+            f["target"] = N.make_unyt_array(it, "out", cls=cname, buf=N.arr_buf(ops[int(self.out[1])]))
         elif self.out in ("i0", "i1"):
             f["target"] = ops[int(self.out[1])]
         return f
@@ -107,7 +116,7 @@ class _Ufunc(Contract):
 
     def law_tag(self):
         """the value law of an out= form is also C18's "exactly the numbers of the copying call" """
-        return "C04/C18" if self.out else "C04"
+        return ("C04/C18" if self.out else "C04") + "".join("/" + p for p in self.also)
 
     def target_index(self):
         return int(self.out[1]) if self.out in ("i0", "i1") else None
@@ -118,7 +127,13 @@ class _Ufunc(Contract):
         the value law over the entry values)"""
         t = a.target
         if t is None:
-            return []
+            if not N.is_unyt_array(r):
+                return []
+            sc = to_z3(N.arr_scalar(r))
+            all0d = z3.And(*[to_z3(N.arr_scalar(o)) if N.is_array(o) else z3.BoolVal(True) for o in a.inputs])
+            return [("C16: a freshly allocated result that is not 0-d is not a unyt_quantity",
+                     z3.Implies(z3.Not(sc), z3.BoolVal(r.cls.name != "unyt_quantity"))),
+                    ("NumPy broadcasting: the result is 0-d exactly when every operand is", sc == all0d)]
         if not N.is_unyt_array(r):
             return [("out=: the target receives the result", N.is_array(r) and N.arr_buf(r) is N.arr_buf(t))]
         return [("out=: the returned object is backed by the target's memory", N.arr_buf(r) is N.arr_buf(t)),
@@ -149,8 +164,11 @@ class _Ufunc(Contract):
         for n, u in enumerate(self.units(a)):
             if u is None:
                 continue
-            out.append(("u%d consistent with its table, non-empty string" % n,
-                        z3.And(S.unit_wf(u, P), z3.Length(S.ustr(u)) >= 1)))
+            if self.need_str:
+                out.append(("u%d consistent with its table, non-empty string" % n,
+                            z3.And(S.unit_wf(u, P), z3.Length(S.ustr(u)) >= 1)))
+            else:
+                out.append(("u%d consistent with its table" % n, S.unit_wf(u, P)))
             if self.plain:
                 out.append(("u%d has no zero-point offset" % n, S.offset(u) == 0))
         for n, o in enumerate(a.inputs):
@@ -164,7 +182,7 @@ class _Ufunc(Contract):
         self._entry_units = (a.inputs, [o.fields["units"] if N.is_unyt_array(o) else None
                                         for o in a.inputs])
         snaps = [snapshot_array(o) if N.is_array(o) else None for o in a.inputs]
-        if self.out == "o":
+        if self.out in ("o", "v0", "v1"):
             snaps.append(snapshot_array(a.target))
         return snaps
 
@@ -174,13 +192,15 @@ class _Ufunc(Contract):
         for n, (o, s) in enumerate(zip(a.inputs, old)):
             if s is None:
                 continue
-            if n == ti and not raising:
-                continue                      # the in-place target
-            if n == ti:
+            aliased = n == ti or o is a.target or (
+                a.target is not None and N.is_array(o) and N.arr_buf(o) is N.arr_buf(a.target))
+            if aliased and not raising:
+                continue                      # the in-place target (or memory shared with it)
+            if aliased:
                 out += target_unchanged("the out= target (operand %d)" % n, o, s)
             else:
                 out += unchanged("operand %d" % n, o, s)
-        if self.out == "o" and raising:
+        if self.out in ("o", "v0", "v1") and raising:
             out += target_unchanged("the out= target", a.target, old[-1])
         return out
 
@@ -442,6 +462,7 @@ class _Multiplicative(_Ufunc):
     """multiply / divide / true_divide: SI(result) == SI(a) (*|/) SI(b), dimension by
     dimensional analysis -- proved through the coefficient bookkeeping of the unit rule"""
     kind = "mult"
+    need_str = False
 
     def eff_units(self, it, a):
         return [u if u is not None else it.domain.null_unit(it) for u in self.units(a)]
@@ -469,7 +490,8 @@ class _Multiplicative(_Ufunc):
                ("C04: dimension of the result by dimensional analysis",
                 z3.And(*[to_real(x) == to_real(p) + sign * to_real(q)
                          for x, p, q in zip(S.dim(ru).vec, d0.vec, d1.vec)])),
-               ("result unit has no zero-point offset", S.offset(ru) == 0)]
+               ("result unit has no zero-point offset", S.offset(ru) == 0),
+               ("result unit is consistent with its table (positive scale)", S.unit_wf(ru, P))]
         return out + self.frames(a, old) + self.class_post(it, r) + self.out_post(it, a, r)
 
     def canary(self, it, a, r, old):
@@ -621,6 +643,7 @@ class _Unary(_Ufunc):
     """unary ufuncs on a quantity: degree-1 pass-through (negative, absolute, fabs, positive,
     conj) and powers (square, reciprocal, sqrt, cbrt)"""
     kind = None
+    need_str = False
     power = None                      # None: pass-through; else the exponent
 
     def requires(self, it, a):
@@ -677,7 +700,8 @@ class _Unary(_Ufunc):
         out = [(self.law_tag() + ": SI(result) == %s(SI(x))" % self.ufunc, law),
                ("C04: dimension of the result by dimensional analysis",
                 z3.And(*[to_real(g) == w for g, w in zip(S.dim(ru).vec, dims)])),
-               ("result unit has no zero-point offset", S.offset(ru) == 0)]
+               ("result unit has no zero-point offset", S.offset(ru) == 0),
+               ("result unit is consistent with its table (positive scale)", S.unit_wf(ru, P))]
         return out + self.frames(a, old) + self.class_post(it, r) + self.out_post(it, a, r)
 
     def canary(self, it, a, r, old):
@@ -726,3 +750,152 @@ for _uf, _base, _x in (("add", _Additive, {"sign": 1}), ("subtract", _Additive, 
         for _o in ("o", "i0") + (("i1",) if _cfg == ("q", "q") else ()):
             OUT_VARIANTS.append(_mk(_base, _uf, _cfg, out=_o, **_x))
 ALL += OUT_VARIANTS
+
+
+# ------------------------------------------------------------------ quantity / aliased operands
+# the configurations the equivalence formulas (C09) use: constants are unyt_quantity objects
+# ("Q"), the converted array may itself be a quantity, x*x passes one object twice ("e"), and
+# the in-place forms name an operand as out=
+EQUIV_VARIANTS = []
+for _uf in ("multiply", "divide"):
+    for _cfg, _outs in ((("q", "Q"), (None, "i0", "i1", "v0", "v1")), (("Q", "q"), (None, "i0", "i1", "v0", "v1")),
+                        (("Q", "Q"), (None, "i0", "i1", "v0", "v1")), (("q", "q"), ("v0", "v1")),
+                        (("q", "e"), (None, "i0", "v0")), (("Q", "e"), (None, "i0", "v0")),
+                        (("s", "Q"), (None, "i1", "v1")), (("Q", "s"), (None, "i0", "v0")),
+                        (("s", "q"), ("i1", "v1")), (("q", "s"), ("v0",))):
+        for _o in _outs:
+            EQUIV_VARIANTS.append(_mk(_Multiplicative, _uf, _cfg, out=_o, also=("C09",)))
+for _cfg, _outs in ((("s", "q"), ("i1", "v1")), (("s", "Q"), (None, "i1", "v1"))):
+    for _o in _outs:
+        EQUIV_VARIANTS.append(_mk(_Additive, "subtract", _cfg, out=_o, sign=-1, also=("C09",)))
+for _o in (None, "i0", "v0"):
+    EQUIV_VARIANTS.append(_mk(_Unary, "sqrt", ("Q",), out=_o, power=UNARY_POW["sqrt"], kind=None, also=("C09",)))
+EQUIV_VARIANTS.append(_mk(_Unary, "sqrt", ("q",), out="v0", power=UNARY_POW["sqrt"], kind=None, also=("C09",)))
+ALL += EQUIV_VARIANTS
+
+
+# ------------------------------------------------------------------ use at call sites
+def _callsite_result(self, it, a, old):
+    """the state after a successful call, as far as the proved postconditions pin it down: a
+    fresh result unit; out=: the target's memory is rewritten (dtype possibly promoted) and the
+    target relabelled and returned; otherwise a new object whose class follows the C16 clauses"""
+    ru = make_unit(it, "ufunc_result_unit")
+    it.assume(z3.Length(S.ustr(ru)) >= 1)          # ASSUMED['sympy-str-nonempty']
+    t = a.target
+    if t is not None:
+        b = N.arr_buf(t)
+        b.elem = it.fresh_real("ufunc_out_elem")
+        b.writes += 1
+        b.kind = z3.String(it.ctx.fresh_name("ufunc_out_kind"))
+        b.itemsize = it.fresh_int("ufunc_out_itemsize")
+        t.fields["units"] = ru
+        # the returned object wraps the target's memory; it need not be the target itself, and its
+        # class is pinned only as far as the C16 clauses go
+        sc, sz = to_z3(N.arr_scalar(t)), to_z3(N.arr_size(t))
+        if it.branch(sc):
+            cname = "unyt_quantity"
+        elif it.branch(sz > 1):
+            cname = "unyt_array"
+        else:
+            cname = "unyt_quantity" if it.branch(it.fresh_bool("one_element_out_result_is_quantity")) \
+                else "unyt_array"
+        r = N.make_unyt_array(it, "ufunc_out_result", units=ru, cls=cname, buf=b)
+        r.fields["_scalar"], r.fields["_size"] = t.fields["_scalar"], t.fields["_size"]
+        return r
+    r = N.make_unyt_array(it, "ufunc_result", units=ru)
+    all0d = z3.simplify(z3.And(*[to_z3(N.arr_scalar(o)) if N.is_array(o) else z3.BoolVal(True)
+                                  for o in a.inputs]))
+    r.fields["_scalar"] = all0d
+    it.assume(z3.Implies(all0d, to_z3(N.arr_size(r)) == 1))
+    if it.branch(all0d):
+        q = N.make_unyt_array(it, "ufunc_result", units=ru, cls="unyt_quantity", buf=N.arr_buf(r))
+        q.fields["_scalar"], q.fields["_size"] = r.fields["_scalar"], r.fields["_size"]
+        r = q
+    return r
+
+
+_Ufunc.callsite_result = _callsite_result
+
+
+AXIOM_LABELS = ("real powers:", "NumPy:")
+from pyvc.unyt_domain import assumed as _assumed      # noqa: E402
+_assumed("sympy-str-nonempty", "the printed form of a unit expression is never the empty string (str of a "
+         "sympy expression; Unit.__str__ prints 'dimensionless' for 1): used for units produced by calls "
+         "that are crossed by contract")
+
+
+def _operand_kind(o, first):
+    if o is first and first is not None:
+        return "e"
+    if N.is_unyt_array(o):
+        return "Q" if o.cls.name == "unyt_quantity" else "q"
+    if N.is_array(o):
+        return "n"
+    return "s"
+
+
+class UfuncCallsite(Contract):
+    """__array_ufunc__ at a call site: the call is matched to the proved configuration
+    (ufunc, operand kinds, out= form) and that contract's precondition is checked, its refusal
+    conditions branch, and its postcondition is all the caller learns.  A call that matches no
+    proved configuration is undecided."""
+    name = "unyt.array.unyt_array.__array_ufunc__"
+    properties = ()
+
+    def apply(self, it, bound):
+        from pyvc.contracts import Args
+        ufunc, method = bound["ufunc"], bound["method"]
+        inputs = tuple(bound["inputs"])
+        kwargs = dict(bound.get("kwargs") or {})
+        out = kwargs.pop("out", None)
+        if kwargs or not isinstance(ufunc, ExternalRef) or method != "__call__":
+            raise Unsupported("__array_ufunc__ call-site form")
+        target = None
+        if out is not None:
+            if not (isinstance(out, tuple) and len(out) == 1):
+                raise Unsupported("__array_ufunc__ with several out= targets")
+            target = out[0]
+        uname = ufunc.name.split(".")[-1]
+        kinds = []
+        for n, o in enumerate(inputs):
+            k = _operand_kind(o, inputs[0] if n else None)
+            if k == "s" and not is_z3(o) and not isinstance(o, (int, float, Fraction)):
+                raise Unsupported("__array_ufunc__ operand %r" % (o,))
+            kinds.append(k)
+        oform = None
+        if target is not None:
+            if not N.is_unyt_array(target):
+                raise Unsupported("__array_ufunc__ with a bare out= target at a call site")
+            oform = next(("i%d" % n for n, o in enumerate(inputs) if o is target), None) or next(
+                ("v%d" % n for n, o in enumerate(inputs) if N.is_array(o) and N.arr_buf(o) is N.arr_buf(target)), "o")
+            if oform == "o" and target.cls.name != "unyt_array":
+                raise Unsupported("__array_ufunc__ with a separate unyt_quantity out= target")
+        vname = "U_%s_call_%s%s" % (uname, "".join(kinds), "_out_" + oform if oform else "")
+        vcls = globals().get(vname)
+        if vcls is None or vname not in ALL:
+            raise Unsupported("no proved __array_ufunc__ contract for %s" % vname)
+        v = vcls()
+        it.call_log.append("%s[%s]" % (self.name, v.tag))
+        a = Args({"self": bound["self"], "ufunc": ufunc, "method": method, "inputs": inputs, "target": target})
+        for label, f in v.requires(it, a):
+            if label.startswith(AXIOM_LABELS):
+                it.assume(f)          # instances of the stated mathematical / NumPy facts
+                continue
+            it.ctx.prove("%s[%s]: pre[%s] at call from %s" % (self.name, v.tag, label, it.verifying), f,
+                         kind="callsite-pre")
+            it.assume(f)
+        for exc, cond in v.raises(it, a).items():
+            if it.branch(cond):
+                it.raise_(exc)
+        for exc in v.may_raise:
+            if it.branch(it.fresh_bool("mayraise_" + exc)):
+                it.raise_(exc)
+        old = v.snapshot(it, a)
+        r = v.callsite_result(it, a, old)
+        for label, f in v.ensures(it, a, r, old):
+            if f is False:
+                raise Unsupported("call-site model of %s violates its postcondition %r" % (vname, label))
+            if f is True:
+                continue
+            it.assume(f)
+        return r
